@@ -1991,6 +1991,10 @@ def _rule7(ctx, rep):
             raise NU(norm(e)[:50])
 
         def struth(e, module):
+            if isinstance(e, ast.Name):
+                defs = [d.value for d in f.own_nodes() if isinstance(d, ast.Assign) and any(isinstance(t, ast.Name) and t.id == e.id for t in d.targets)]
+                if len(defs) == 1:
+                    return struth(defs[0], module)
             if isinstance(e, ast.BoolOp):
                 vals = [struth(v, module) for v in e.values]
                 return all(vals) if isinstance(e.op, ast.And) else any(vals)
@@ -2012,7 +2016,18 @@ def _rule7(ctx, rep):
             raise NU(norm(e)[:50])
 
         # by role: whatever is appended to the verdict list and is computed from the implementation's __module__
-        verdicts = [c.args[0] for c in f.calls() if isinstance(c.func, ast.Attribute) and c.func.attr == 'append' and c.args and any(isinstance(x, ast.Attribute) and x.attr == '__module__' for x in ast.walk(c.args[0]))]
+        def from_module(e, depth=0):
+            # computed from <impl>.__module__, directly or through locals bound once
+            for x in ast.walk(e):
+                if isinstance(x, ast.Attribute) and x.attr == '__module__':
+                    return True
+                if isinstance(x, ast.Name) and depth < 4:
+                    defs = [d.value for d in f.own_nodes() if isinstance(d, ast.Assign) and any(isinstance(t, ast.Name) and t.id == x.id for t in d.targets)]
+                    if len(defs) == 1 and from_module(defs[0], depth + 1):
+                        return True
+            return False
+
+        verdicts = [c.args[0] for c in f.calls() if isinstance(c.func, ast.Attribute) and c.func.attr == 'append' and c.args and from_module(c.args[0])]
         key = f'{f.qname}:package-or-below'
         if not verdicts:
             r.fail(key, where(f), 'rule_06 no longer appends a verdict computed from the implementation module of a previous() reference')
